@@ -268,6 +268,10 @@ class BaseFileLock(abc.ABC):
             self._lock(fd, block)
         except (IOError, OSError):
             os.close(fd)
+        except BaseException:
+            # E.g. interrupted while blocking: don't leak the descriptor
+            os.close(fd)
+            raise
         else:
             self._lock_file_fd = fd
 
